@@ -33,6 +33,71 @@ MAY_ERASE_CORE = {S + 'RSForm::EraseInternal': 'also drops the tracking entry', 
 REFUSAL_CLASSES = [S + 'RSCore', S + 'IdentityManager', S + 'CstList', S + 'RSForm', S + 'rsModificationFacet']
 
 
+def _list_grouped(db, rule, thorough):
+    import itertools
+    from engine.evalmini import Interp, Obj, OutOfFragment, enum_values
+    S_ = 'ccl::semantic::'
+    fns = {k: db.fn(S_ + 'CstList::' + k, required=False) for k in ('MoveBefore', 'Insert', 'end', 'Find')}
+    if any(v is None for v in fns.values()):
+        rule.broken('anchor vanished: CstList::%s' % ', '.join(k for k, v in fns.items() if v is None))
+        return
+    T = enum_values(db, S_ + 'CstType')
+    # the order the property names: base sets, constants, structures, then everything derived
+    GROUP = {'base': 0, 'constant': 1, 'structured': 2}
+    kinds = ['base', 'constant', 'structured', 'term', 'axiom'] + (['function', 'theorem', 'predicate'] if thorough else [])
+    if any(k not in T for k in kinds):
+        rule.broken('CstType lost one of %s' % kinds)
+        return
+    grp = lambda k: GROUP.get(k, 3)
+    grouped = lambda ks: all(grp(a) <= grp(b) for a, b in zip(ks, ks[1:]))
+    bad_m, bad_i, moves, inserts = None, None, 0, 0
+    try:
+        for ln in range(1, 5):
+            for ks in itertools.product(kinds, repeat=ln):
+                if not grouped(ks):
+                    continue
+                ids = list(range(1, ln + 1))
+                km = {i: k for i, k in zip(ids, ks)}
+                for what in range(ln):
+                    for where in range(ln + 1):
+                        this = Obj(__cls__=S_ + 'CstList', order=list(ids), types=('pyfn', lambda uid, km=km: T[km[uid]]))
+                        it = Interp(db)
+                        w = it.call(fns['end'], [], this) if where == ln else it.call(fns['Find'], [ids[where]], this)
+                        ok = it.call(fns['MoveBefore'], [ids[what], w], this)
+                        after = list(this['order'])
+                        moves += 1
+                        msg = None
+                        if sorted(after) != ids:
+                            msg = 'the list becomes %s' % after
+                        elif not ok and after != ids:
+                            msg = 'the move is refused and the list changes to %s' % [km[i] for i in after]
+                        elif ok and not grouped([km[i] for i in after]):
+                            msg = 'the move is accepted and the list becomes %s' % [km[i] for i in after]
+                        elif not ok and what == where:
+                            msg = 'moving a constituent onto its own place is refused'
+                        if msg and bad_m is None:
+                            bad_m = 'list %s, moving #%d (%s) before %s: %s' % (list(ks), what + 1, ks[what], 'the end' if where == ln else '#%d (%s)' % (where + 1, ks[where]), msg)
+                for nk in kinds:
+                    km2 = dict(km)
+                    km2[ln + 1] = nk
+                    this = Obj(__cls__=S_ + 'CstList', order=list(ids), types=('pyfn', lambda uid, km2=km2: T[km2[uid]]))
+                    Interp(db).call(fns['Insert'], [ln + 1], this)
+                    after = list(this['order'])
+                    inserts += 1
+                    if (sorted(after) != ids + [ln + 1] or [i for i in after if i != ln + 1] != ids or not grouped([km2[i] for i in after])) and bad_i is None:
+                        bad_i = 'inserting a %s into %s gives %s' % (nk, list(ks), [km2.get(i, '?') for i in after])
+    except OutOfFragment as e:
+        if str(e).startswith('call to ') or 'form at' in str(e):
+            rule.broken('CstList outside the evaluable fragment: %s' % e)
+            return
+        bad_m = bad_m or 'CstList faults: %s' % e
+    for inst, bad, cnt, f in (('MoveBefore', bad_m, moves, fns['MoveBefore']), ('Insert', bad_i, inserts, fns['Insert'])):
+        if bad:
+            rule.violation(inst, '%s:%d' % (f.file, f.line), bad)
+        else:
+            rule.ok(inst, '%d cases on grouped lists of up to 4 constituents over %d kinds' % (cnt, len(kinds)), '%s:%d' % (f.file, f.line))
+
+
 def check(db, rep):
     rep.explanation = ('Views of a constituent are updated together on every path (CO-UPDATE), refusals happen before any mutation, guards for tracked '
                        'constituents dominate the core calls, and the kind/letter/priority tables are evaluated over the whole CstType domain.')
@@ -430,6 +495,8 @@ def _generator_rule(db, rep):
     r10 = rep.rule('r10', 'RENUMBER-FAITHFUL (shared with C13 r8): ResetAliases interpreted on schemas with gaps keeps the referent of every mention, never gives a dangling mention a meaning, and leaves the registry holding exactly the names in use', 1)
     from rules import C13
     C13.renumber_evaluated(db, r10)
+    r11 = rep.rule('r11', 'LIST-GROUPED: CstList::Insert and CstList::MoveBefore, interpreted from their source on every kind-ordered list of up to four constituents, keep base sets before constants before structures before derived constituents: an accepted move leaves a grouped permutation of the list, a refused one leaves the list as it was, a constituent moved onto its own place is accepted, an inserted constituent lands inside its group', 2)
+    _list_grouped(db, r11, rep.tier == 'thorough')
     r7 = rep.rule('r7', 'VIEWS (shared with C07 r1): a membership change of schema / thesaurus storage is followed by the removal or rebuild in every derived graph', 10)
     from rules import C07
     from engine.modset import ModSets
